@@ -182,10 +182,13 @@ def rect_vars(S, m):
     for i, mod in enumerate(m.M):
         for j in range(mod.c):
             v = {}
-            for k in "xywh":
+            for k, lst in (("x", mod.x), ("y", mod.y), ("w", mod.w), ("h", mod.h)):
                 name = f"{k}{i}i{j}"
-                sv = S.real(name)
-                varmap[name] = sv.t
+                sv = S.real(name, pos=(k in "wh"))
+                if S.mode == "sym":
+                    varmap[name] = sv.t
+                else:               # concrete replay: the configuration is assigned to the model's own variables
+                    lst[j].assign(sv)
                 v[k] = sv
             S.assume(sand(v["w"] > 0, v["h"] > 0))
             rects[(i, j)] = v
@@ -346,7 +349,7 @@ def _conc_met0(et, e):
 
 @contract(P, functions=[L + "legalfloor.Model.first_build_model", L + "expression_tree.Equation.is_equation_met"],
           scope="per instance (netlist constants concrete), ALL configurations symbolic", params=[dict(inst=i) for i in QUICK],
-          budget_s=1500, vc_timeout_s=150)
+          budget_s=1500, vc_timeout_s=150, crosscheck=False)      # its obligations are closed (no concrete counterpart of the hypotheses)
 def met_implies_legal(S, inst):
     """for all configurations: every equation of a group is met  =>  the legality clauses that group is responsible for hold
     (within the documented tolerances)"""
